@@ -105,7 +105,7 @@ CHECKS = {
          'BareIsOne, NeverUnmatched, StarIsAll, ExactIsExact, ErrorRule on all sequences of the bound. Every database state TLC '
          'explored is rebuilt through wn.add in that order and each specifier x language is asked of wn.lexicons(), '
          'wn.Wordnet() and wn.remove(); TLC compares the sets and the error behaviour.',
-    note='Trusted: TLC string operators, SQLite GLOB for the generated (star-only) patterns.',
+    note='Trusted: TLC string operators, SQLite GLOB for the generated patterns (star, and the undocumented ? and [...] without ranges).',
     design='DESIGN.md section 4 C08'),
  'C09': dict(
     engine='words',
